@@ -245,7 +245,7 @@ def strategy():
 
 def shards(tier, seed):
     out = [{'part': 'alone', 'mws': MWS[i::5]} for i in range(5)]
-    n = 150 if tier == 'quick' else 6000
+    n = 150 if tier == 'quick' else 12000
     out += [{'part': 'random', 'n': n} for _ in range(11)]
     return out
 
